@@ -1,0 +1,11 @@
+//go:build verif
+
+package iface
+
+//@ func jmpWithRdx
+//@   props C15 C07
+//@   assigns nothing
+//@   fresh
+//@   ensures len12: len(value) == 12
+//@   ensures movabs_jmp: x86_is_movabs_rdx_jmp(value, 0)
+//@   ensures imm_is_dx: x86_movabs_rdx_imm(value, 0) == dx
